@@ -1,5 +1,6 @@
 """C19: selectors, filter combinators, sorted insertion, location order (spec/Feat.tla)."""
-from fam_generic import Family, run_family
+from fam_generic import Family, run_family, run_families
+from fam_stream import stream_family
 
 
 def M(mode, L, maxins, batch, stride, mc=True):
@@ -7,7 +8,7 @@ def M(mode, L, maxins, batch, stride, mc=True):
 
 
 FAM = Family(
-    "feat", "MC_Feat", "Trace_Feat", "feat",
+    "feat", "MC_Feat", "Trace_Feat", "feat", case_fam=("less", "insert", "select", "feat"),
     rounds={"quick": [M("less", 3, 1, 200, 1), M("insert", 3, 3, 200, 1), M("select", 3, 1, 1, 1, mc=False)],
             "thorough": [M("less", 3, 1, 200, 1), M("less", 4, 1, 2000, 1, mc=False), M("insert", 3, 3, 200, 1),
                          M("insert", 3, 4, 500, 1, mc=False), M("select", 3, 1, 1, 1, mc=False)]},
@@ -21,4 +22,5 @@ FAM = Family(
 
 
 def run(prop, tier, seed, replay=None):
-    return run_family(FAM, prop, tier, seed, replay)
+    # the statement's "gts select output": the select command driven through the record-stream family
+    return run_families([FAM, stream_family("cli-select", ["select", "define"])], prop, tier, seed, replay)
